@@ -354,6 +354,61 @@ def worker_parser(rec, shard, nshards, length, seed):
             rec.violation("C15:parser:unbalanced-accepted:double-bracket", query=text)
 
 
+def reorderings(tree):
+    """Every tree obtained by permuting the members of every group, recursively (incl. the top level)."""
+    variants = []
+    for it in tree:
+        variants.append([it] if isinstance(it, Leaf) else list(reorderings(it)))
+    for combo in itertools.product(*variants):
+        for perm in itertools.permutations(combo):
+            yield list(perm)
+
+
+def equal_group_orders(ctx):
+    """Annotations holding two groups with equal content: negations and conjunctions over them give the same answer in
+    every sibling order (results must be told apart by identity, not by content)."""
+    env = Env()
+    rec = ctx.rec
+    model = schema_model.load(core.SCHEMA_DATA + "/HED8.3.0.xml")
+    L = {p: Leaf(model.by_short[p.casefold()]) for p in POOL}
+    bases = [[[L["Red"], [L["Event"]]], [L["Blue"], [L["Event"]]]],
+             [[L["Red"], [L["Event"]]], [L["Blue"], [L["Event"]]], L["Sensory-event"]],
+             [[L["Event"]], [L["Event"]], L["Red"]],
+             [[L["Red"], [L["Event"], L["Blue"]]], [[L["Event"], L["Blue"]], L["Sensory-event"]]]]
+    atoms = ["event", "red", "blue", "sensory-event"]
+    queries = []
+    for a, b, c in itertools.permutations(atoms, 3):
+        queries += [f"{{[~{a} && ~{b}] && {c}}}", f"[~{a} || (~{b} && ~{c})]", f"[~{a} && ~{b}] && {c}",
+                    f"{{~{a} && {c}}}", f"[ [~{a}] && {c} ]"]
+    for base in bases:
+        seen = {}
+        for tree in reorderings(base):
+            text = render(tree)
+            if text in seen:
+                continue
+            hs = env.HedString(text, env.schema)
+            row = []
+            for q in queries:
+                rec.n("evaluations")
+                rec.n("transitions")
+                rec.n("distinct_nontrivial")
+                try:
+                    row.append(env.search(q, hs))
+                except Exception as e:
+                    rec.violation("C15:search-raises:" + type(e).__name__, annotation=text, query=q, error=repr(e)[:200])
+                    row.append(None)
+            seen[text] = row
+        first_text, first = next(iter(seen.items()))
+        for text, row in seen.items():
+            if row != first:
+                bad = [q for q, x, y in zip(queries, first, row) if x != y]
+                rec.violation("C15:sibling-order-changes-result:equal-groups", annotation=text, other_order=first_text,
+                              queries=bad[:4])
+                break
+        rec.state(("equal-groups", hedgen.canon(base)))
+        rec.outcome("equal-groups")
+
+
 def service_check(ctx):
     """query_service interface agrees with per-handler search."""
     import pandas as pd
@@ -426,6 +481,7 @@ def run(ctx):
         ctx.parallel(worker_laws, bounds, qdepth, ctx.seed)
     ctx.parallel(worker_parser, plen, ctx.seed)
     service_check(ctx)
+    equal_group_orders(ctx)
     ctx.rec.counts["states"] = len(ctx.rec.states)
 
 
